@@ -7369,6 +7369,20 @@ class Circle(_RoundShape):
     def __copy__(self):
         return Circle(self)
 
+    def render(self, **kwargs):
+        width = kwargs.get("width", kwargs.get("relative_length"))
+        height = kwargs.get("height", kwargs.get("relative_length"))
+        if (
+            isinstance(self.rx, Length)
+            and self.rx.units == "%"
+            and isinstance(width, (int, float))
+            and isinstance(height, (int, float))
+        ):
+            # A percentage of r refers to the normalized diagonal of the viewport, SVG2 8.9
+            diagonal = sqrt((width * width + height * height) / 2.0)
+            self.rx = self.ry = self.rx.amount * diagonal / 100.0
+        return _RoundShape.render(self, **kwargs)
+
     def _name(self):
         return self.__class__.__name__
 
